@@ -191,27 +191,35 @@ fn check_parent(run: &Run, pnode: &Node, cfg: &AlphaCfg, max_batch: usize) {
             if !batch.is_empty() && batch.len() <= 2 {
                 let seq = guard(|| {
                     let mut u = parent.next_unsealed();
+                    // what the state accepted (an attempt meant to fail may legitimately succeed: the grandfathered faucet on mainnet
+                    // may be applied again, and then its companion transaction is part of the block)
+                    let mut applied: std::collections::BTreeSet<melstructs::TxHash> = Default::default();
                     for t in batch.iter() {
                         for inv in &invalid {
-                            let _ = u.apply_tx(inv);
+                            if u.apply_tx(inv).is_ok() {
+                                applied.insert(inv.hash_nosigs());
+                            }
                         }
                         u.apply_tx(t).ok()?;
+                        applied.insert(t.hash_nosigs());
                         let _ = u.apply_tx(t);
                         let _ = u.apply_tx_batch(&[t.clone(), t.clone()]);
                         // a batch whose *last* member fails late (a faucet already in the block): its earlier members must not stay behind
                         if t.kind == melstructs::TxKind::Faucet {
                             for v in valid_others.iter().filter(|v| !batch.iter().any(|b| b.hash_nosigs() == v.hash_nosigs() || b.inputs.iter().any(|i| v.inputs.contains(i)))) {
-                                let _ = u.apply_tx_batch(&[v.clone(), t.clone()]);
+                                if u.apply_tx_batch(&[v.clone(), t.clone()]).is_ok() {
+                                    applied.insert(v.hash_nosigs());
+                                }
                             }
                         }
                     }
-                    Some(u.seal(*act))
+                    Some((u.seal(*act), applied.len()))
                 });
-                if let Ok(Some(c)) = seq {
+                if let Ok(Some((c, accepted))) = seq {
                     let blk = c.to_block();
                     run.transition();
-                    if blk.transactions.len() != batch.len() {
-                        run.violation("C06", "failed-attempt-left-a-transaction".into(), format!("after failed attempts the block [{}] on [{}] holds {} transactions instead of {}", label, path, blk.transactions.len(), batch.len()), json!({"parent_path": path, "block": label}));
+                    if blk.transactions.len() != accepted {
+                        run.violation("C06", "failed-attempt-left-a-transaction".into(), format!("after failed attempts the block [{}] on [{}] holds {} transactions although {} were accepted", label, path, blk.transactions.len(), accepted), json!({"parent_path": path, "block": label}));
                     } else if let Ok(Err(e)) = guard(|| parent.apply_block(&blk).map(|s| s.header())) {
                         run.violation(
                             "C06",
